@@ -28,8 +28,8 @@ def specs(tier):
         out.append(XSpec("print-parse[%s,1 arbitrary char]" % name, H, "cond_supplied1", "reach_supplied1", timeout=200, env=env,
                          bounds=dict(dialect=name, value="1 arbitrary character (any Unicode)", keys="a.b, ID")))
         if tier == "thorough":
-            out.append(XSpec("print-parse[%s,2 arbitrary values, keys from alphabet]" % name, H, "cond_supplied", "reach_supplied",
-                             timeout=2000, env=env, bounds=dict(dialect=name, values="2 arbitrary characters", keys="2 of ID,a.b,c-d,B_2")))
+            out.append(XSpec("print-parse[%s,2 arbitrary values]" % name, H, "cond_supplied", "reach_supplied",
+                             timeout=2000, env=dict(env, VB_FIXKEYS=1), bounds=dict(dialect=name, values="2 arbitrary characters", keys="a.b, ID")))
             out.append(XSpec("print-parse[%s,value<=2 chars]" % name, H, "cond_supplied1", "reach_supplied1", timeout=2000,
                              env=dict(env, VB_VLEN=2), bounds=dict(dialect=name, value="1-2 arbitrary characters")))
     for sep, trail, rep in itertools.product(_par.SEPS, ("0", "1"), ("0", "1")):
